@@ -7,11 +7,23 @@ import re, json, glob, os
 ROOT = os.path.dirname(os.path.dirname(os.path.abspath(__file__)))
 out = {}
 lemma_src = {lf: open(lf).read() for lf in glob.glob(os.path.join(ROOT, "lean/RaftVerif/Lemmas/*.lean"))}
-for f in sorted(glob.glob(os.path.join(ROOT, "lean/RaftVerif/Props/C*.lean"))):
+# witness runs written by the vacuity audit: non-trivial reachable states of each cluster-level system on which the
+# theorems are instantiated; they are obligations of the properties whose theorems they witness
+AUDIT = {"AuditSys": ["C02", "C01", "C03", "C04", "C06", "C07", "C10", "C16", "C19"],
+         "AuditSnap": ["C09", "C02", "C03", "C04"], "AuditSnap2": ["C09", "C02", "C03", "C04"],
+         "AuditMember": ["C08", "C01", "C02"]}
+files = sorted(glob.glob(os.path.join(ROOT, "lean/RaftVerif/Props/C*.lean"))) + \
+    sorted(glob.glob(os.path.join(ROOT, "lean/RaftVerif/Props/Audit*.lean"))) + \
+    sorted(glob.glob(os.path.join(ROOT, "lean/RaftGen/Props/C*.lean")))
+for f in files:
     base = os.path.basename(f)[:-5]
     pid = base[:3]
+    extra = []
+    if base in AUDIT:
+        pid, extra = AUDIT[base][0], AUDIT[base][1:]
     src = open(f).read()
-    module = "RaftVerif.Props." + base
+    gen = "/RaftGen/" in f  # theorems about definitions REGENERATED from the Go source on every run (translator tie)
+    module = ("RaftGen.Props." if gen else "RaftVerif.Props.") + base
     opens = re.findall(r"^open ([\w.]+)\s*$", src, re.M)
     for m0 in re.finditer(r"^#print axioms ([\w.'?!]+)[ \t]*(?:--[ \t]*also[ \t]+([C\d ]+))?", src, re.M):
         n, also = m0.group(1), (m0.group(2) or "").split()
@@ -41,9 +53,9 @@ for f in sorted(glob.glob(os.path.join(ROOT, "lean/RaftVerif/Props/C*.lean"))):
                     m = re.search(r"/--((?:(?!-/).)*)-/\s*(?:@\[[^\]]*\]\s*)?(?:private\s+)?" + pat, ls, re.S)
                     break
         stmt = re.sub(r"\s+", " ", m.group(1)).strip()[:300] if m else ""
-        for p in [pid] + also:
+        for p in [pid] + also + extra:
             lst = out.setdefault(p, [])
             if not any(o["name"] == full for o in lst):
-                lst.append({"name": full, "module": mod, "statement": stmt})
+                lst.append(dict({"name": full, "module": mod, "statement": stmt}, **({"gen": True} if gen else {})))
 json.dump(out, open(os.path.join(ROOT, "lean/obligations.json"), "w"), indent=1)
 print({k: len(v) for k, v in sorted(out.items())})
